@@ -173,6 +173,10 @@ class Query:
         # [(function regex, regex on the source text of the loop head (3 lines), bound)]:
         # resolved to CBMC loop ids after linking, so that they survive edits of /repo
         self.unwind_rules = list(unwind_rules)
+        # the environment models' own tables (aio table 24, callback queue 24, reap queue 16) are larger than the
+        # default bound used for loops of the code under test
+        if not any(r[0] == r"^env_" for r in self.unwind_rules):
+            self.unwind_rules.append((r"^env_", r".", 26))
         # a query whose every path is cut by an assumption (a schedule that is not executable) is not an error
         self.allow_pruned = allow_pruned
         # the query has no symbolic input at all (shape fully concrete): if CBMC does not finish, the same harness is
